@@ -1,23 +1,12 @@
 #![allow(dead_code, unused_imports)]
-mod alloc;
-mod encode;
-mod exercise;
-mod gen;
-mod model;
-mod observe;
-mod props;
-mod refimpl;
-mod runner;
-mod scan;
-mod worker;
+use vcheck::runner::*;
+use vcheck::{alloc, props, worker};
 
 #[global_allocator]
 static GLOBAL: alloc::CountingAlloc = alloc::CountingAlloc;
 
-use runner::*;
-
 fn usage() -> ! {
-    eprintln!("usage: vcheck <ID> quick|thorough | vcheck <ID> --replay <file> | vcheck --worker");
+    eprintln!("usage: vcheck <ID> quick|thorough | vcheck <ID> --replay <file> | vcheck --worker | vcheck --obs-digest <seed> <n>");
     std::process::exit(2)
 }
 
